@@ -26,7 +26,7 @@ var _ = reg("blob", suiteBlob)
 // (entity size limit 1 MiB - 4 as in production), sizes around every part boundary.
 func suiteBlob(e *vh.Env) {
 	e.OpenOps("blob")
-	e.Result.Rule = "newBlob + blob.read of the real store over the fake datastore for payload sizes 0, 1, and L-1, L, L+1 around every multiple L = 1,000,000 up to 4L (thorough: 7L) plus random sizes; the payload read back must be identical; inlined length and part count are compared with Model/Blob; non-trivial = payload of at least L bytes"
+	e.Result.Rule = "newBlob + blob.read of the real store over the fake datastore for payload sizes 0, 1, and L-1, L, L+1 around every multiple L = 1,000,000 up to 4L (thorough: 7L) plus random sizes and sizes with more than ten parts (11L+1, 21L+5; thorough: up to 31.5L); the payload read back must be identical; inlined length and part count are compared with Model/Blob; non-trivial = payload of at least L bytes"
 	fake.reset()
 	L := store.VerifFieldByteLimit
 	var sizes []int
@@ -40,6 +40,11 @@ func suiteBlob(e *vh.Env) {
 	}
 	for k := 0; k < e.N(4, 40); k++ {
 		sizes = append(sizes, e.Rng.Intn(maxK*L))
+	}
+	// part indices with two digits (App Engine accepts requests up to 32 MB): the parts must come back in index order
+	sizes = append(sizes, 11*L+1, 21*L+5)
+	if e.Thorough() {
+		sizes = append(sizes, 10*L, 11*L, 31*L+L/2)
 	}
 	for i, n := range sizes {
 		if !e.Want(i) {
@@ -252,7 +257,7 @@ func suiteAppAuth(e *vh.Env) {
 	}
 	_ = l3
 	// the cross product of agent calls
-	ids := []string{"", "agent1@svc", "agent2@svc", "stranger@svc"}
+	ids := []string{"", "agent1@svc", "agent2@svc", "stranger@svc", emptyEmailToken}
 	bids := []string{"b1", "b2", "nope", ""}
 	rids := []string{"rid-alice", "rid-bob", "unknown", ""}
 	idx := 0
@@ -423,6 +428,56 @@ func suiteAppAuth(e *vh.Env) {
 		}
 		e.Eval("cached-get-then-backend-deleted", true)
 		e.Count("cached-get-then-backend-deleted")
+	}
+	// liveness follows the agent's latest poll: the record of an earlier poll is about to leave the 5-minute window,
+	// the agent polls once more (a poll that returns at once because a request is waiting), the old record's time
+	// runs out - the backend is still live, because it polled a moment ago
+	{
+		b := aeBackend{"lv", "lv-agent@svc", "lv-user@x", []string{"/lv"}}
+		registerBackend(e, b)
+		serve := func(rid string, poll <-chan reply) bool { // the agent's poll returns rid; answer it
+			r, ok := await(poll, 35*time.Second)
+			if !ok || !strings.Contains(string(r.Body), rid) {
+				return false
+			}
+			agentCall(b.agent, b.id, rid, "/agent/response", "POST", httpResponseBytes("200 OK", nil, []byte("ok")))
+			return true
+		}
+		p1 := goLive(e, b)
+		u0 := async(func() (int, http.Header, []byte) {
+			return userCall(b.endUser, false, "lv-0", "POST", "/lv/x", nil, []byte("b0"))
+		})
+		ok := serve("lv-0", p1)
+		await(u0, 5*time.Second)
+		// no poll is in flight now; let 4m59.4s pass
+		verifCall("age", "POST", "/age?backend=lv&ago=4m59.4s", nil, nil)
+		aged := time.Now()
+		u1 := async(func() (int, http.Header, []byte) {
+			return userCall(b.endUser, false, "lv-1", "POST", "/lv/x", nil, []byte("b1"))
+		})
+		ok = ok && waitFor(3*time.Second, func() bool { return strings.Contains(fake.snapshot(), fmt.Sprintf("req:%q/lv-1", "lv")) })
+		p2 := async(func() (int, http.Header, []byte) { return agentCall(b.agent, b.id, "", "/agent/pending", "GET", nil) })
+		ok = ok && serve("lv-1", p2)
+		polled := time.Now()
+		await(u1, 5*time.Second)
+		if !ok {
+			e.Fail("C18:setup-liveness", "the preparatory exchanges did not complete", -1, nil, nil, nil)
+		} else {
+			time.Sleep(time.Until(aged.Add(900 * time.Millisecond))) // the earlier record is now more than five minutes old
+			uc := async(func() (int, http.Header, []byte) {
+				return userCall(b.endUser, false, "lv-2", "POST", "/lv/x", nil, []byte("b2"))
+			})
+			routed := waitFor(3*time.Second, func() bool { return strings.Contains(fake.snapshot(), fmt.Sprintf("req:%q/lv-2", "lv")) })
+			if !routed {
+				r, _ := await(uc, 2*time.Second)
+				e.Fail("C18:live-backend-not-routed", fmt.Sprintf("the agent of backend lv polled %v ago (its previous poll was 5 minutes ago); a request of %s for /lv/x was not routed to it (status %d)", time.Since(polled).Round(10*time.Millisecond), b.endUser, r.Status), -1, nil, r.Status, "routed to lv")
+			} else {
+				agentCall(b.agent, b.id, "lv-2", "/agent/response", "POST", httpResponseBytes("200 OK", nil, []byte("ok")))
+				await(uc, 5*time.Second)
+			}
+		}
+		e.Eval("liveness-follows-latest-poll", true)
+		e.Count("liveness-follows-latest-poll")
 	}
 	// unauthorised list calls (cannot block: rejected before any wait)
 	for _, c := range []struct{ id, bid string }{{"", "b1"}, {"agent2@svc", "b1"}, {"stranger@svc", "b2"}, {"agent1@svc", "nope"}, {"agent1@svc", ""}} {
